@@ -407,7 +407,8 @@ fn main() {
     let dates = b_dates(tier);
     let small = b_dates_small();
     let times = b_times_fracs(true);
-    let offs: Vec<i32> = vec![0, 60, -60, 3600, 19800, -34200, 50400, -43200, 86340, -86340, 29, -30, 3599, 10770, -21585];
+    // incl. the hours at which the printed width of the hour field changes (9 / 10) and the last hour
+    let offs: Vec<i32> = vec![0, 60, -60, 3600, 19800, -34200, 50400, -43200, 86340, -86340, 29, -30, 3599, 10770, -21585, 32400, -35940, 36000, -36000, 37800, -39540, 39600, 82800, -82860];
     let nd = dates.len() as u64;
     let nt = times.len() as u64;
     let ns = small.len() as u64;
